@@ -253,7 +253,7 @@ func scenarioConc(t *traceWriter, rng *rand.Rand) {
 	runAll("sqlfile", cases, maxSched)
 	if thorough() {
 		runAll("mem", cases3, maxSched*10)
-		runAll("sqlfile", cases3, maxSched)
+		runAll("sqlfile", cases3, 250)
 	} else {
 		runAll("mem", cases3, 60)
 	}
